@@ -644,6 +644,16 @@ class Executor:
                 r0 = st.deref_all(args[0]) if isinstance(args[0], Ref) else args[0]
                 recv = f'; receiver {r0!r}'[:160]
             raise Unsupported(f'no model and no MIR body for callee `{callee}` (from {caller.name if caller else "?"}){recv}')
+        if args and isinstance(args[0], Ref) and fn.params:
+            # auto-deref through forwarding impls (`impl Trait for &T`, Box<T>): the method of the pointee was selected,
+            # hand it a reference to the pointee itself
+            p0 = fn.params[0].split(':', 1)[1].strip()
+            if p0.startswith('&') and not p0.lstrip('&').lstrip().startswith(('&', "'")) or re.match(r"^&('\w+ )?(mut )?[^&]", p0):
+                a0 = args[0]
+                while isinstance(st.deref(a0), Ref):
+                    a0 = st.deref(a0)
+                if a0 is not args[0]:
+                    args = [a0] + list(args[1:])
         yield from self.run(fn, args, st, depth + 1)
 
     def call_value(self, f, args, st, depth):
